@@ -9,7 +9,9 @@
       1  Lcapy's (Q, R, P, O) certificate rejected by the verified checker pf_check
       2  model result <> Lcapy's time function (as finite maps)
       4  verified round trip of Lcapy's OWN output failed:  L(output) <> input
-      8  causality bookkeeping differs (t >= 0 condition / missing step)
+      8  causality bookkeeping differs: a regular term without its step that is not covered by
+         a t >= 0 condition, a condition the model requires is missing, or a condition although
+         causality was requested (a harmless extra t >= 0 on impulses/step-qualified terms is accepted)
      16  initial/final value formula differs from the model
      32  residues of the substitution method differ from the model
      64  a sqrt witness handed to the damped-sin formulas is wrong (harness error)
@@ -113,7 +115,7 @@ Definition case_code (B : branches KI) (guard : bool -> nat -> nat -> bool)
       match model_eval B guard causal const F srcs with
       | None => 2%nat
       | Some m => Nat.add (bit (reg_eq (flat_reg m) (o_reg o) && sing_eq (flat_sing m) (o_sing o)) 2)
-                          (bit (Bool.eqb (m_cond m) (o_cond o) && steps_ok (o_cond o) (o_reg o)) 8)
+                          (bit ((if m_cond m then o_cond o else (negb causal || negb (o_cond o))) && steps_ok (o_cond o) (o_reg o)) 8)
       end
     else bit (steps_ok (o_cond o) (o_reg o) && (negb causal || negb (o_cond o))) 8 in
   let c4 := bit (rt_check const F o) 4 in
